@@ -560,6 +560,10 @@ func exec(op string) (res string) {
 			return "NOT-roundtrip"
 		}
 		return "roundtrip"
+	case "lz4blk":
+		return execLz4blk(expand(w[1]), atoi(w[2]))
+	case "lz4brt":
+		return execLz4blk(expand(w[2]), len(expand(w[1])))
 	case "snapdec":
 		return execSnapdec(expand(w[1]))
 	case "snaprt":
@@ -1368,6 +1372,24 @@ func main() {
 	}
 	for i := 0; i < 500*mult; i++ {
 		op, cls := genSnaprt(r, snapMax, lens, lateLs[:9])
+		out.Case(op, exec(op), cls, true)
+	}
+	// 6b'. the LZ4 block format: pierrec's UncompressBlock against the format's decoder in Lean on
+	//      structurally complete blocks; CompressBlock's output decoded by that decoder
+	for i := 0; i < 1500*mult; i++ {
+		op, cls := genLz4blk(r, lens)
+		if op == "" {
+			out.Dist[cls]++
+			continue
+		}
+		out.Case(op, exec(op), cls, true)
+	}
+	for i := 0; i < 500*mult; i++ {
+		op, cls := genLz4brt(r, snapMax, lens, lateLs[:9])
+		if op == "" {
+			out.Dist[cls]++
+			continue
+		}
 		out.Case(op, exec(op), cls, true)
 	}
 	// 6c. frames at the 256 MiB limit (the model answers through lengths only)
